@@ -670,7 +670,9 @@ def run(ctx):
     rule_r2(facts, ctx, cg)
     rule_r3(facts, ctx)
     rule_r4(facts, ctx)
-    rule_r6(facts, ctx, cg)
+    from . import c02
+    sfacts = c02.stream_view(facts)      # the ring's entry points with private helpers / lock-and-run closures substituted in
+    rule_r6(sfacts, ctx, cg if sfacts is facts else CallGraph(sfacts))
     rule_r10(facts, ctx, cg=cg)
     ctx.floor("C04.R10", 4, "calls that sleep on a Condvar with a timeout (Buffer::wait_for_read/write and their callers, NCReadStream::wait)")
     rule_r9(facts, ctx)
